@@ -319,6 +319,12 @@ func c16AfterInterruption(w *c16World, tg c16Target, reported bool, rng *kit.Ran
 						r.Count("rotations_after_interruption_under_auto_rebuild", 1)
 						w.check("after second follow-up rotation")
 					}
+					// and one more revocation that stays unpublished, so that the switch to manual rebuild
+					// below happens with a pending revocation
+					if cj := w.issue(can[0], false); cj >= 0 {
+						w.revoke(cj, "cert")
+						w.check("after follow-up revocation left pending")
+					}
 				}
 			}
 		}
